@@ -69,7 +69,7 @@ def _pairs_from_choi(J, din, dout):
 
 
 CP_CONS = ("stinespring", "unitary", "isometry", "mixed-unitary", "unital-cp", "cp-generic", "tp-scaled", "unital-scaled", "redundant-unitary", "redundant-split", "zero-padded")
-NONCP_CONS = ("cptp-minus", "non-hp", "hp-perturbed", "cp-shifted", "witness", "transpose", "phase-pair")
+NONCP_CONS = ("cptp-minus", "non-hp", "hp-perturbed", "cp-shifted", "witness", "transpose", "phase-pair", "similarity")
 
 
 def _construct(p):
@@ -170,6 +170,15 @@ def _construct(p):
     if cons == "phase-pair":
         u = U.haar(rng, din, field)
         return [u], [-u]
+    if cons == "similarity":
+        # X -> A X B^dagger with B^dagger A = I and A != B: Choi rank one, trace preserving, equal square dimensions -- and not a unitary channel
+        # (not even Hermiticity preserving): A = U S, B = U S^{-dagger} for a non-unitary invertible S
+        u = U.haar(rng, din, field)
+        sdiag = np.array([1.5 ** ((-1) ** k) * (1.0 + 0.2 * k) for k in range(din)])
+        S = np.diag(sdiag).astype(complex if field == "complex" else float)
+        if field == "complex":
+            S = S @ np.diag(np.exp(1j * np.linspace(0.3, 1.1, din)))
+        return [u @ S], [u @ np.linalg.inv(S).conj().T]
     raise ValueError(cons)
 
 
@@ -832,11 +841,11 @@ def cases(tier, seed):
     plan = []
     for din, dout in dims:
         for cons in CP_CONS + NONCP_CONS:
-            if cons in ("unitary", "mixed-unitary", "redundant-unitary", "transpose", "phase-pair") and din != dout:
+            if cons in ("unitary", "mixed-unitary", "redundant-unitary", "transpose", "phase-pair", "similarity") and din != dout:
                 continue
             if cons == "isometry" and not dout > din:
                 continue
-            if cons in ("unitary", "isometry", "redundant-unitary", "transpose", "phase-pair"):
+            if cons in ("unitary", "isometry", "redundant-unitary", "transpose", "phase-pair", "similarity"):
                 ranks = [1]
             elif cons == "mixed-unitary":
                 ranks = [2, 3, din * din] if din > 1 else [2]
